@@ -125,3 +125,59 @@ Theorem C12_stamped_to_abs : forall r cur f cap,
   map (fun mt => strip_time (fst mt)) (stamped r cur) = map strip_time (fst (fst (fst (to_abs_aux r cur f cap)))).
 Proof. exact C12_proofs.stamped_to_abs_aux. Qed.
 Print Assumptions C12_stamped_to_abs.
+
+(* ---------------------------------------------------------------- identical notes *)
+From Proofs Require Import C04_proofs C07_proofs Sound_glue C12_notes.
+(* Definitions: ev_rel r (C04_proofs) := the (tick, message without its time field) events of a relative list;
+   nev := its NOTE_ON / NOTE_OFF events;  saved_notes r := the note messages of the saved list r at the sum of the waits
+   before them, as written to the file (channel 0, pitch and velocity kept);
+   rswf r := per pitch the note messages of r alternate on / off in list order and every NOTE_OFF comes at a strictly
+   later tick than its NOTE_ON (no zero-length notes, no two notes of one pitch at the same time -- also not on
+   different channels, because the channel is not saved). *)
+
+(* clause "one sequence per saved sequence, in the same order, with identical notes (pitch, onset, duration, velocity)"
+   -- FULL under rswf, for EVERY index including the meta target 0: the note events of the loaded sequence's relative
+   view are exactly the saved ones (as a multiset; both sides alternate per key, so equal events means equal notes) *)
+Theorem C12_notes : forall rels : list (list msg),
+  forallb rt_ok rels = true -> forallb C12_proofs.nonneg_waits rels = true ->
+  forall seqs, save_load rels = Ok seqs ->
+  forall i r, nth_error rels i = Some r -> rswf r = true ->
+  exists s s' v, nth_error seqs i = Some s /\ get_rel s = Ok (s', v) /\
+    Permutation (nev (ev_rel v)) (saved_notes r).
+Proof. exact C12_notes.C12_notes. Qed.
+Print Assumptions C12_notes.
+
+(* the same per key (channel 0, pitch), as LISTS: kev k E := the events of E whose message has key k.  For every key the
+   loaded sequence has the saved note events in the saved order -- the same NOTE_ON messages (pitch, velocity) at
+   the same onsets, each followed by its NOTE_OFF at the same tick: identical (pitch, onset, duration, velocity) *)
+Theorem C12_notes_order : forall rels : list (list msg),
+  forallb rt_ok rels = true -> forallb C12_proofs.nonneg_waits rels = true ->
+  forall seqs, save_load rels = Ok seqs ->
+  forall i r, nth_error rels i = Some r -> rswf r = true ->
+  exists s s' v, nth_error seqs i = Some s /\ get_rel s = Ok (s', v) /\
+    forall k, kev k (nev (ev_rel v)) = kev k (saved_notes r).
+Proof. exact C12_notes.C12_notes_order. Qed.
+Print Assumptions C12_notes_order.
+
+(* sequences other than the meta target: the relative view is fresh, alternates per key and has non-negative waits *)
+Theorem C12_notes_own : forall rels : list (list msg),
+  forallb rt_ok rels = true -> forallb C12_proofs.nonneg_waits rels = true ->
+  forall seqs, save_load rels = Ok seqs ->
+  forall i r, (0 < i)%nat -> nth_error rels i = Some r -> rswf r = true ->
+  exists s, nth_error seqs i = Some s /\ get_rel s = Ok (s, s_rel s) /\
+    Permutation (nev (ev_rel (s_rel s))) (saved_notes r) /\
+    (forall k, alt k false (s_rel s) = true) /\ C07_proofs.nonneg_waits (s_rel s) = true.
+Proof. exact C12_notes.C12_notes_own. Qed.
+Print Assumptions C12_notes_own.
+
+(* outside rswf (findings): a zero-length note is lost together with the following real note of the same pitch, and two
+   channels playing one pitch at the same time come back as one fused note on channel 0 *)
+Theorem C12_notes_zero_length_refuted : exists r seqs s s' v,
+  rt_ok r = true /\ C12_proofs.nonneg_waits r = true /\
+  save_load [[mk_wait 0 1 false]; r] = Ok seqs /\ nth_error seqs 1 = Some s /\ get_rel s = Ok (s', v) /\
+  saved_notes r <> [] /\ nev (ev_rel v) = [].
+Proof.
+  destruct C12_notes.C12_notes_zero_length_lost as (H1 & H2 & _ & seqs & s & s' & v & H4 & H5 & H6 & H7).
+  eexists. exists seqs, s, s', v. repeat split; try eassumption. vm_compute. discriminate.
+Qed.
+Print Assumptions C12_notes_zero_length_refuted.
